@@ -45,8 +45,10 @@ Definition Inv (n h0 : N) (s : sq) : Prop :=
   /\ (forall i, holder s = Some i -> (i < length (threads s))%nat)
   /\ (forall i t, nth_error (threads s) i = Some t -> thread_ok n h0 s i t).
 
-(** Every payload handed to [add] so far or still to be handed: published, parked, or to do. *)
-Definition acct (s : sq) : list N := g_accepted s ++ blocked s ++ concat (map todo (threads s)).
+(** Every payload handed to [add] so far or still to be handed: published, parked, panicked in
+    its fill closure, or to do. *)
+Definition acct (s : sq) : list N :=
+  g_accepted s ++ blocked s ++ panicked s ++ concat (map todo (threads s)).
 
 (** ** Statements (proved below). *)
 
@@ -62,11 +64,22 @@ Definition sq_exactly_once_unmodified : Prop :=
     /\ (forall x, In x (consumed s) -> x <> Torn)
     /\ g_t s - g_h s <= n.
 
-(** Every payload is accounted for: published, parked on the blocked list, or not yet added. *)
+(** Every payload is accounted for: published, parked on the blocked list, abandoned because
+    its fill closure panicked, or not yet added. *)
 Definition sq_every_add_accounted : Prop :=
   forall n m h0 progs es, params_ok n m h0 ->
     let s := fst (run step (init n h0 progs) es) in
-    Permutation (g_accepted s ++ blocked s ++ concat (map todo (threads s))) (concat progs).
+    Permutation (g_accepted s ++ blocked s ++ panicked s ++ concat (map todo (threads s)))
+                (concat progs).
+
+(** A submission whose fill closure panicked (after the slot was reset) is never published:
+    its payload is not among the accepted ones and the kernel never reads it. Payloads are
+    told apart by their value, hence the distinctness hypothesis. *)
+Definition sq_panicked_never_published : Prop :=
+  forall n m h0 progs es, params_ok n m h0 ->
+    let s := fst (run step (init n h0 progs) es) in
+    forall p, In p (panicked s) -> NoDup (concat progs) ->
+      ~ In p (g_accepted s) /\ ~ In (Entry p) (consumed s).
 
 (** No step of any thread touches a slot holding a published entry the kernel has not
     consumed. *)
@@ -138,9 +151,29 @@ Proof.
   destruct l as [|x l]; [destruct k; reflexivity|]. cbn [skipn Nat.add nth]. apply IH.
 Qed.
 
+Lemma perm_mid2 {A} (p : A) X1 X2 Y :
+  Permutation (p :: X1 ++ X2 ++ Y) (X1 ++ X2 ++ p :: Y).
+Proof. rewrite !app_assoc. apply Permutation_middle. Qed.
+
+Lemma perm_mid3 {A} (p : A) X1 X2 X3 Y :
+  Permutation (p :: X1 ++ X2 ++ X3 ++ Y) (X1 ++ X2 ++ X3 ++ p :: Y).
+Proof. rewrite !app_assoc. apply Permutation_middle. Qed.
+
+Lemma NoDup_app_disjoint {A} (x : A) : forall l1 l2, NoDup (l1 ++ l2) -> In x l1 -> In x l2 -> False.
+Proof.
+  induction l1 as [|a l1 IH]; intros l2 H H1 H2; [destruct H1|].
+  cbn [app] in H. apply NoDup_cons_iff in H. destruct H as [Hn Hd].
+  destruct H1 as [->|H1].
+  - apply Hn. apply in_or_app. right. exact H2.
+  - apply (IH l2); assumption.
+Qed.
+
+Lemma In_firstn {A} (x : A) k l : In x (firstn k l) -> In x l.
+Proof. intros H. rewrite <- (firstn_skipn k l). apply in_or_app. left. exact H. Qed.
+
 (** ** One step at a time *)
 Ltac proj :=
-  cbn [len khead ktail slots holder threads blocked consumed g_h g_t g_accepted
+  cbn [len khead ktail slots holder threads blocked panicked consumed g_h g_t g_accepted
        set_thread set_holder with_pc next_add pcv todo lh lt] in *.
 Ltac inv_destruct H :=
   destruct H as (Hlen & Hkh & Hkt & Hle & Hcap & Hlp & Hsl & Hco & Hho & Hth).
@@ -301,13 +334,28 @@ Proof.
       intros _. split; [reflexivity|exact Hroom].
   - (* PFill *)
     destruct (HFS (or_introl eq_refl)) as (Hlt & Hroom).
-    unfold Inv; proj. repeat match goal with |- _ /\ _ => split end; try assumption.
-    + intros j Hj1 Hj2. rewrite (idx_free n m h0 s t j) by assumption. apply Hsl; assumption.
-    + intros k Hk. rewrite upd_length by exact Hil. apply Hho. exact Hk.
-    + eapply (Inv_threads n h0 s _ i t); try eassumption; try reflexivity.
-      * unfold thread_ok; proj. split; [intros _; apply Htodo; discriminate|].
-        split; [exact Hlock|]. split; [discriminate|]. intros _. split; assumption.
-      * intros j tj _. apply thread_ok_frame; reflexivity.
+    destruct (is_faulty (hd 0 (todo t))).
+    + (* the fill closure panics: the reset slot is free, the lock is released, nothing else
+         changes *)
+      assert (Eh : holder s = Some i) by (apply Hlock; reflexivity).
+      unfold Inv; proj. repeat match goal with |- _ /\ _ => split end; try assumption.
+      * intros j Hj1 Hj2. rewrite (idx_free n m h0 s t j) by assumption. apply Hsl; assumption.
+      * intros k Hk. discriminate Hk.
+      * eapply (Inv_threads n h0 s _ i t); try eassumption; try reflexivity.
+        -- unfold thread_ok; proj.
+           destruct (tl (todo t)) as [|q r];
+             (split; [intros Hd; first [discriminate | exfalso; apply Hd; reflexivity]|]);
+             (split; [split; discriminate|]); (split; [discriminate|]);
+             intros [E|E]; discriminate.
+        -- intros j tj Hne. apply (thread_ok_other n h0 s _ i j tj Hne); [right; exact Eh|].
+           left; reflexivity.
+    + unfold Inv; proj. repeat match goal with |- _ /\ _ => split end; try assumption.
+      * intros j Hj1 Hj2. rewrite (idx_free n m h0 s t j) by assumption. apply Hsl; assumption.
+      * intros k Hk. rewrite upd_length by exact Hil. apply Hho. exact Hk.
+      * eapply (Inv_threads n h0 s _ i t); try eassumption; try reflexivity.
+        -- unfold thread_ok; proj. split; [intros _; apply Htodo; discriminate|].
+           split; [exact Hlock|]. split; [discriminate|]. intros _. split; assumption.
+        -- intros j tj _. apply thread_ok_frame; reflexivity.
   - (* PStore *)
     destruct (HFS (or_intror eq_refl)) as (Hlt & Hroom).
     assert (Eh : holder s = Some i) by (apply Hlock; reflexivity).
@@ -420,14 +468,18 @@ Proof.
     match goal with |- Permutation (acct (set_thread _ _ ?t')) _ =>
       destruct (Hupd t') as (A & B & E1 & E2) end;
     unfold acct; proj; rewrite E1, E2; proj; try apply Permutation_refl.
+  - (* PFill, panic *)
+    destruct (todo t) as [|p r]; [exfalso; apply Htodo; [discriminate|reflexivity]|].
+    cbn [hd tl]. do 2 apply Permutation_app_head. rewrite <- app_assoc.
+    apply Permutation_app_head. cbn [app]. apply Permutation_middle.
   - (* PStore *)
     destruct (todo t) as [|p r]; [exfalso; apply Htodo; [discriminate|reflexivity]|].
     cbn [hd tl]. rewrite <- app_assoc. apply Permutation_app_head. cbn [app].
-    rewrite !(app_assoc (blocked s)). apply Permutation_middle.
+    apply perm_mid3.
   - (* PLockBlocked *)
     destruct (todo t) as [|p r]; [exfalso; apply Htodo; [discriminate|reflexivity]|].
     cbn [hd tl]. apply Permutation_app_head. rewrite <- app_assoc.
-    apply Permutation_app_head. cbn [app]. apply Permutation_middle.
+    apply Permutation_app_head. cbn [app]. apply perm_mid2.
 Qed.
 
 Lemma acct_kstep s : acct (kstep s) = acct s.
@@ -479,18 +531,33 @@ Proof.
   destruct (pcv t) eqn:Epc;
     repeat match goal with
     | |- context [if is_full ?a ?b ?c then _ else _] => destruct (is_full a b c)
+    | |- context [if is_faulty ?a then _ else _] => destruct (is_faulty a)
     | |- context [match holder s with _ => _ end] => destruct (holder s)
     end; try reflexivity.
-  - destruct (HFS (or_introl eq_refl)) as (Hlt & Hroom). proj.
-    rewrite (idx_free n m h0 s t j) by assumption. reflexivity.
-  - destruct (HFS (or_intror eq_refl)) as (Hlt & Hroom). proj.
-    rewrite (idx_free n m h0 s t j) by assumption. reflexivity.
+  (* PFill (panicking or not) and PStore: the slot written is (h0 + g_t) mod n *)
+  all: destruct (HFS ltac:(auto)) as (Hlt & Hroom); proj;
+    rewrite (idx_free n m h0 s t j) by assumption; reflexivity.
 Qed.
 
 Lemma sq_drained_means_all_delivered_holds : sq_drained_means_all_delivered.
 Proof.
   intros n m h0 s Hp HI He. pose proof (ghost_eq_of_eq n m h0 s Hp HI He) as Hg.
   inv_destruct HI. rewrite Hco, Hg, <- Hlp, Nat2N.id, firstn_all. reflexivity.
+Qed.
+
+Lemma sq_panicked_never_published_holds : sq_panicked_never_published.
+Proof.
+  intros n m h0 progs es Hp. cbv zeta.
+  destruct (run_ok n m h0 progs Hp es) as [HI HP].
+  set (s := fst (run step (init n h0 progs) es)) in *. clearbody s.
+  intros p Hpan Hnd. inv_destruct HI.
+  assert (Hacc : ~ In p (g_accepted s)).
+  { intros Hin. apply (Permutation_NoDup (Permutation_sym HP)) in Hnd. unfold acct in Hnd.
+    apply (NoDup_app_disjoint p _ _ Hnd Hin).
+    apply in_or_app. right. apply in_or_app. left. exact Hpan. }
+  split; [exact Hacc|].
+  intros Hin. apply Hacc. rewrite Hco in Hin. apply in_map_iff in Hin.
+  destruct Hin as (q & Eq & Hq). injection Eq as ->. exact (In_firstn _ _ _ Hq).
 Qed.
 
 (** The ring content between head and tail is the pending list, in order. *)
@@ -543,28 +610,39 @@ Example h1_schedule_repaired :
 Proof. cbv zeta. repeat split; vm_compute; reflexivity. Qed.
 
 (** Non-vacuity: three threads on a ring of 2 whose counters start at 2^32 - 1, so that the
-    tail wraps with the first publication. Thread 1 spins while thread 0 holds the lock, the
-    kernel runs in the middle of thread 0's fill (and finds nothing published yet), thread 2
-    finds the ring full under the lock and parks, thread 0's second add is refused by the
-    unlocked pre-check, and the kernel consumes both published entries. *)
+    tail wraps with the first publication. Thread 0's first payload (1001) is faulty: it takes
+    the lock while thread 1 spins, the kernel runs just before the fill (and finds nothing
+    published), the fill closure panics after the slot was reset — lock released, tail
+    untouched, nothing accepted. Thread 1 then gets the lock and publishes 20 into that very
+    slot; thread 0 goes on with its next payload (10) and fills the ring; thread 2 finds the
+    ring full under the lock and parks; thread 0's third add is refused by the unlocked
+    pre-check; the kernel consumes the two published entries. *)
 Definition c04_schedule : list ev :=
   [T 0; T 0; T 0] ++ [T 1; T 1; T 1]              (* both pass the pre-check on the empty ring *)
-  ++ [T 0; T 1; T 0; T 0; T 0; K; T 0]            (* 0 locks, 1 spins, 0 fills; K: nothing; 0 stores *)
-  ++ [T 1] ++ [T 2; T 2; T 2]                     (* 1 gets the lock; 2 passes the pre-check (1 < 2) *)
-  ++ [T 1; T 1; T 1; T 1]                         (* 1 re-loads, fills, stores: ring full *)
+  ++ [T 0; T 1; T 0; T 0; K; T 0]                 (* 0 locks, 1 spins, 0 re-loads; K: nothing; 0's fill panics *)
+  ++ [T 1; T 1; T 1; T 1; T 1]                    (* 1 gets the lock, re-loads, fills, stores 20 *)
+  ++ [T 2; T 2; T 2] ++ [T 0; T 0; T 0]           (* 2 and 0 (payload 10) pass the pre-check (1 < 2) *)
+  ++ [T 0; T 0; T 0; T 0; T 0]                    (* 0 locks, re-loads, fills, stores 10: ring full *)
   ++ [T 2; T 2; T 2; T 2]                         (* 2 locks, re-loads: full, releases, parks *)
-  ++ [T 0; T 0; T 0; K; T 0; K].                  (* 0's next add: pre-check full; kernel drains *)
+  ++ [T 0; T 0; T 0; K; T 0; K].                  (* 0 (payload 11): pre-check full; kernel drains *)
 
 Example c04_example :
-  let progs := [[10; 11]; [20]; [30]] in
+  let progs := [[1001; 10; 11]; [20]; [30]] in
   let s := fst (run step (init 2 (two32 - 1) progs) c04_schedule) in
-  params_ok 2 two31 (two32 - 1)
-  /\ consumed s = [Entry 10; Entry 20]
-  /\ g_accepted s = [10; 20] /\ blocked s = [30; 11]
+  let s1 := fst (run step (init 2 (two32 - 1) progs) (firstn 12 c04_schedule)) in
+  params_ok 2 two31 (two32 - 1) /\ NoDup (concat progs)
+  (* right after the panic: lock free, slot torn, nothing published *)
+  /\ panicked s1 = [1001] /\ holder s1 = None /\ slots s1 1 = Torn /\ g_t s1 = 0
+  /\ ktail s1 = two32 - 1
+  (* at the end *)
+  /\ consumed s = [Entry 20; Entry 10]
+  /\ g_accepted s = [20; 10] /\ blocked s = [30; 11] /\ panicked s = [1001]
   /\ concat (map todo (threads s)) = []
   /\ g_h s = 2 /\ g_t s = 2 /\ khead s = 1 /\ ktail s = 1 /\ holder s = None.
 Proof.
-  cbv zeta. split.
+  cbv zeta. split; [|split].
   - unfold params_ok, two31, two32. repeat split; lia.
+  - cbn [concat app]. repeat constructor; cbn [In]; intros H;
+      repeat match goal with H : _ \/ _ |- _ => destruct H end; try discriminate; assumption.
   - repeat split; vm_compute; reflexivity.
 Qed.
